@@ -39,7 +39,7 @@ func (p *c10) Directed() []string {
 
 func (p *c10) Floors(tier string) []string {
 	return []string{"clause.rejected_unchanged", "clause.rejected_no_events", "clause.followup_equal", "code.101", "code.102", "code.103",
-		"fault.flow-deleted", "fault.node-deleted", "fault.router-removed", "fault.wait-removed", "fault.exits-rekeyed", "fault.parent-flow-deleted", "fault.parent-node-deleted", "fault.resume-limit", "fault.corrupt-no-waiting-run",
+		"fault.flow-deleted", "fault.node-deleted", "fault.router-removed", "fault.wait-removed", "fault.exits-rekeyed", "fault.parent-flow-deleted", "fault.parent-node-deleted", "fault.resume-limit", "fault.resume-limit-exact", "fault.resume-limit-plus-one", "fault.flow-unloadable", "fault.corrupt-no-waiting-run", "fault.corrupt-waiting-run-active",
 		"clause.fault_no_panic_no_goerror", "clause.fault_impossible_fails"}
 }
 
@@ -342,6 +342,14 @@ func faultAssets(scen *gen.Scenario, kind string, w *waitingLoc, r *fw.Rand) gen
 	switch kind {
 	case "flow-deleted":
 		a["flows"] = append(append([]any{}, fl[:fi]...), fl[fi+1:]...)
+	case "flow-unloadable":
+		// the flow is still there but was changed so that it no longer loads (a dangling destination / a newer spec version)
+		if r.Bool() && len(nodes) > 0 {
+			ex := nodes[r.Intn(len(nodes))].(map[string]any)["exits"].([]any)
+			ex[0].(map[string]any)["destination_uuid"] = gen.UUID4(r)
+		} else {
+			flow["spec_version"] = "99.0.0"
+		}
 	case "parent-flow-deleted":
 		if len(w.parentFlows) == 0 {
 			return nil
@@ -449,7 +457,7 @@ func faultAssets(scen *gen.Scenario, kind string, w *waitingLoc, r *fw.Rand) gen
 	return a
 }
 
-var faultKinds = []string{"flow-deleted", "node-deleted", "router-removed", "wait-removed", "exits-rekeyed", "parent-flow-deleted", "parent-node-deleted", "resume-limit", "corrupt-no-waiting-run"}
+var faultKinds = []string{"flow-deleted", "flow-unloadable", "node-deleted", "router-removed", "wait-removed", "exits-rekeyed", "parent-flow-deleted", "parent-node-deleted", "resume-limit", "resume-limit-exact", "resume-limit-plus-one", "corrupt-no-waiting-run", "corrupt-waiting-run-active"}
 
 // faults restores the waiting session against faulted assets and resumes it with the next valid resume.
 func (p *c10) faults(res *fw.Result, scen *gen.Scenario, rn *drive.Runner, next gen.M, viol func(sig, what string, extra map[string]any)) {
@@ -485,13 +493,37 @@ func (p *c10) faults(res *fw.Result, scen *gen.Scenario, rn *drive.Runner, next 
 		var sa flows.SessionAssets = rn.SA
 		impossible := false
 		switch kind {
-		case "resume-limit":
+		case "resume-limit", "resume-limit-exact", "resume-limit-plus-one":
 			o := scen.Options
 			o.Set = true
 			o.MaxSteps, o.MaxTemplateChars, o.MaxFieldChars, o.MaxResultChars = 100, 10000, 640, 640
-			o.MaxResumes = r.Intn(2)
+			// the engine counts the wait events of ALL runs of the session, also of runs that have exited
+			nWaits := strings.Count(string(sessionJSON), `_wait","created_on"`) + strings.Count(string(sessionJSON), `_wait", "created_on"`)
+			if nWaits == 0 {
+				nWaits = strings.Count(string(sessionJSON), `_wait"`)
+			}
+			switch kind {
+			case "resume-limit":
+				o.MaxResumes = r.Intn(2)
+				impossible = true
+			case "resume-limit-exact":
+				o.MaxResumes = nWaits // limit reached exactly: resumption is impossible
+				impossible = true
+			default:
+				o.MaxResumes = nWaits + 1 // one below the limit: the limit must not be what stops this resume
+			}
 			eng = drive.NewEngine(o)
-			impossible = true
+		case "corrupt-waiting-run-active":
+			var m map[string]any
+			json.Unmarshal(sessionJSON, &m)
+			if runs, ok := m["runs"].([]any); ok {
+				for _, rr := range runs {
+					if rm := rr.(map[string]any); rm["status"] == "waiting" {
+						rm["status"] = "active"
+					}
+				}
+			}
+			data, _ = json.Marshal(m)
 		case "corrupt-no-waiting-run":
 			data = []byte(strings.Replace(string(sessionJSON), `"status":"waiting","uuid"`, `"status":"completed","uuid"`, -1))
 			// only the run status is changed (run envelopes carry status before uuid); the session stays "waiting"
@@ -544,13 +576,18 @@ func (p *c10) faults(res *fw.Result, scen *gen.Scenario, rn *drive.Runner, next 
 					continue
 				}
 			}
-			if kind != "flow-deleted" {
+			if kind == "flow-unloadable" {
+				if _, err := sa.Flows().Get(assets.FlowUUID(w.flowUUID)); err == nil {
+					res.Count("fault_skipped_still_loadable."+kind, 1)
+					continue
+				}
+			} else if kind != "flow-deleted" {
 				if _, err := sa.Flows().Get(assets.FlowUUID(w.flowUUID)); err != nil {
 					res.Count("fault_skipped_invalid_definition."+kind, 1)
 					continue
 				}
 			}
-			impossible = kind == "flow-deleted" || kind == "node-deleted" || kind == "router-removed" || kind == "wait-removed"
+			impossible = kind == "flow-deleted" || kind == "flow-unloadable" || kind == "node-deleted" || kind == "router-removed" || kind == "wait-removed"
 		}
 		res.Count("fault."+kind, 1)
 		x := map[string]any{"fault": kind, "waiting_flow": w.flowUUID, "waiting_node": w.nodeUUID, "resume": next, "session": trunc(string(sessionJSON), 6000)}
@@ -591,9 +628,9 @@ func (p *c10) faults(res *fw.Result, scen *gen.Scenario, rn *drive.Runner, next 
 		if isReject {
 			res.Count(fmt.Sprintf("code.%d", ee.Code()), 1)
 		}
-		if kind == "corrupt-no-waiting-run" {
+		if kind == "corrupt-no-waiting-run" || kind == "corrupt-waiting-run-active" {
 			if !isReject || ee.Code() != engine.ErrorResumeNoWaitingRun {
-				viol("C10|fault|corrupt-no-waiting-run|not-rejected", fmt.Sprintf("a waiting session without a waiting run was not rejected with ErrorResumeNoWaitingRun: err=%v", err2), x)
+				viol("C10|fault|"+kind+"|not-rejected", fmt.Sprintf("a waiting session without a waiting run was not rejected with ErrorResumeNoWaitingRun: err=%v", err2), x)
 			} else {
 				res.NonTrivial = true
 				res.Count("clause.rejected_unchanged", 1)
@@ -604,7 +641,7 @@ func (p *c10) faults(res *fw.Result, scen *gen.Scenario, rn *drive.Runner, next 
 					// compare against a clean re-read (marshal normalises)
 					s0, _ := eng.ReadSession(sa, data, func(assets.Reference, error) {})
 					if s0 != nil && string(marshalJSON(s0)) != string(marshalJSON(s)) {
-						viol("C10|rejected-resume-changed-session|reread|102", "a resume rejected with ErrorResumeNoWaitingRun changed the session JSON", x)
+						viol("C10|rejected-resume-changed-session|reread|102|"+kind, "a resume rejected with ErrorResumeNoWaitingRun changed the session JSON", x)
 					}
 				}
 			}
@@ -622,11 +659,19 @@ func (p *c10) faults(res *fw.Result, scen *gen.Scenario, rn *drive.Runner, next 
 			viol("C10|fault|"+kind+"|Resume-go-error|"+errClass(err2.Error()), fmt.Sprintf("Resume after fault %s returned a Go error instead of failing the session: %s", kind, trunc(err2.Error(), 200)), x)
 			continue
 		}
+		if kind == "resume-limit-plus-one" && sprint != nil {
+			res.Count("clause.fault_limit_not_reached_yet", 1)
+			for _, e := range sprint.Events() {
+				if e.Type() == "failure" && strings.Contains(eventText(e), "maximum number of resumes") {
+					viol("C10|fault|resume-limit-plus-one|failed-below-limit", "the session was failed for the resume limit although one more resume was allowed", x)
+				}
+			}
+		}
 		if impossible {
 			res.Count("clause.fault_impossible_fails", 1)
 			if isReject {
 				// a wait that does not accept this resume type is checked before... no: flow/limit/node/wait checks come first
-				if kind == "resume-limit" || kind == "flow-deleted" || kind == "node-deleted" || kind == "router-removed" || kind == "wait-removed" {
+				if kind == "resume-limit" || kind == "resume-limit-exact" || kind == "flow-deleted" || kind == "flow-unloadable" || kind == "node-deleted" || kind == "router-removed" || kind == "wait-removed" {
 					viol("C10|fault|"+kind+"|rejected-instead-of-failed", fmt.Sprintf("resumption is impossible (%s) but the resume was rejected with %d instead of failing the session", kind, ee.Code()), x)
 				}
 				continue
